@@ -11,13 +11,14 @@
 (C->S) spec/Trace_EOS.tla judges recorded states: ideal-gas equation and round
        trips, van der Waals residual, root selection against ALL positive real
        roots bracketed here independently of numpy.roots, round trips, linearity
-       in n, ideal limit, critical constants, from_critical.
+       in n, ideal limit, critical constants, from_critical; array-valued states
+       (same ndarray objects reused): InputUntouched, round trips, array = map of scalar.
 """
 import math
 import random
 
 from harness import core
-from harness.core import to_dec
+from harness.core import to_dec, to_dec2
 
 R_SI = 8.3144598            # J/mol/K, the documented value (used only to build cases / bracket roots)
 BAR = 1.0e5
@@ -205,17 +206,95 @@ def exec_crit(case):
     return events, {'a': a, 'b': b, 'Tc': Tc, 'Pc': Pc, 'state': events[-1]['state']}
 
 
+def exec_array(case):
+    """Array-valued states: float ndarrays passed where the unmodified library evaluates
+    element-wise, the SAME array objects reused from call to call."""
+    import numpy as np
+    from pmutt.eos import IdealGasEOS
+    vdw = case['eos'] == 'vdw'
+    if vdw:
+        obj, a, b = _vdw_object(case)
+    else:
+        obj = IdealGasEOS()
+    T0, P0, n0 = list(case['T']), list(case['P']), list(case['n'])
+    k = len(T0)
+    if vdw:      # a volume on the gas branch for every element (scalar calls)
+        V0 = [_call('get_V', lambda i=i: obj.get_V(T=T0[i], P=P0[i], n=n0[i], gas_phase=True)) for i in range(k)]
+    else:
+        V0 = [_call('get_V', lambda i=i: obj.get_V(T=T0[i], P=P0[i], n=n0[i])) for i in range(k)]
+    T, V, n = np.array(T0), np.array(V0), np.array(n0)
+    touched, pairs = [], []
+    shapes = [True]
+
+    def arr_call(name, fn, args):
+        before = {kk: vv.copy() for kk, vv in args.items()}
+        try:
+            out = fn(**args)
+        except Exception as ex:                  # noqa
+            raise _Raised('%s(array): %s: %s' % (name, type(ex).__name__, ex))
+        for kk, vv in args.items():
+            if vv.shape != before[kk].shape or vv.tobytes() != before[kk].tobytes():
+                touched.append('%s:%s' % (name, kk))
+        out = np.asarray(out, dtype=float)
+        if out.shape != (k,):
+            shapes[0] = False
+            return np.full(k, 1.0)
+        if not np.all(np.isfinite(out)):
+            raise _Raised('nonfinite:%s(array)' % name)
+        return out
+
+    def compare(arr, name, scalar_fn):
+        for i in range(k):
+            pairs.append([to_dec2(arr[i]), to_dec2(_call(name, lambda: scalar_fn(i)))])
+
+    # T -> P -> T on the arrays the caller holds
+    Pb = arr_call('get_P', obj.get_P, {'T': T, 'V': V, 'n': n})
+    compare(Pb, 'get_P', lambda i: obj.get_P(T=T0[i], V=V0[i], n=n0[i]))
+    Pb_held = [float(x) for x in Pb]
+    Tb = arr_call('get_T', obj.get_T, {'V': V, 'P': Pb, 'n': n})
+    compare(Tb, 'get_T', lambda i: obj.get_T(V=V0[i], P=Pb_held[i], n=n0[i]))
+    # V -> P -> V: volume solved again from the returned pressure and the held T, n
+    if vdw:
+        Vb = [_call('get_V', lambda i=i: obj.get_V(T=float(T[i]), P=float(Pb[i]), n=float(n[i]), gas_phase=True))
+              for i in range(k)]
+        Vn = arr_call('get_V', lambda n: obj.get_V(T=T0[0], P=P0[0], n=n, gas_phase=True), {'n': n})
+        compare(Vn, 'get_V', lambda i: obj.get_V(T=T0[0], P=P0[0], n=n0[i], gas_phase=True))
+        nV = arr_call('get_n', lambda V: obj.get_n(V=V, P=P0[0], T=T0[0], gas_phase=True), {'V': V})
+        compare(nV, 'get_n', lambda i: obj.get_n(V=V0[i], P=P0[0], T=T0[0], gas_phase=True))
+        Vc = arr_call('get_Vc', obj.get_Vc, {'n': n})
+        compare(Vc, 'get_Vc', lambda i: obj.get_Vc(n=n0[i]))
+    else:
+        Vb = arr_call('get_V', obj.get_V, {'T': T, 'P': Pb, 'n': n})
+        compare(Vb, 'get_V', lambda i: obj.get_V(T=T0[i], P=Pb_held[i], n=n0[i]))
+        nb = arr_call('get_n', obj.get_n, {'V': V, 'P': Pb, 'T': T})
+        compare(nb, 'get_n', lambda i: obj.get_n(V=V0[i], P=Pb_held[i], T=T0[i]))
+    # what the caller's arrays hold now vs the state before any call
+    held_ok = all(float(x) == y for x, y in zip(T, T0)) and all(float(x) == y for x, y in zip(V, V0)) \
+        and all(float(x) == y for x, y in zip(n, n0))
+    if not held_ok and not touched:
+        touched.append('state:changed')
+    ev = {'ev': 'arr', 'eos': case['eos'], 'T0': [to_dec(x) for x in T0], 'V0': [to_dec(x) for x in V0],
+          'Tb': [to_dec(x) for x in Tb], 'Vb': [to_dec(float(x)) for x in Vb], 'pairs': pairs,
+          'touched': touched, 'shapes': shapes[0]}
+    return [ev], {'touched': touched, 'V0': V0, 'V_held': [float(x) for x in V], 'T_back': [float(x) for x in Tb]}
+
+
 def execute(case):
     try:
         if case['kind'] == 'ideal':
             return exec_ideal(case)
         if case['kind'] == 'vdw':
             return exec_vdw(case)
+        if case['kind'] == 'array':
+            return exec_array(case)
         return exec_crit(case)
     except _Raised as ex:
         msg = str(ex)
         if msg.startswith('nonfinite:'):
             return [{'ev': 'nonfinite', 'call': msg[10:]}], {'nonfinite': msg[10:]}
+        if case['kind'] == 'array':
+            # every parameter is documented as float: a library that refuses arrays keeps the property
+            return [{'ev': 'arr_refused', 'call': msg.split(':')[0]}], {'array_refused': msg}
         return [{'ev': 'raise', 'call': msg.split(':')[0]}], {'raised': msg}
 
 
@@ -352,6 +431,29 @@ def gen_crit(rnd, count):
     return out
 
 
+def gen_array(rnd, count):
+    """arrays of 2-4 states; vdW states on isotherms with one real root or the gas branch at
+    moderate density (the V -> P -> V step is then well conditioned); n != 1 throughout"""
+    out = []
+    while len(out) < 2 * count:
+        k = rnd.choice([2, 3, 4])
+        a, b = logu(rnd, *A_RANGE), logu(rnd, *B_RANGE)
+        Tc = 8.0 * a / (27.0 * b * R_SI)
+        Ts, Ps, ns = [], [], []
+        tries = 0
+        while len(Ts) < k and tries < 1000:
+            tries += 1
+            T, P, n = _state(rnd)
+            if T < 1.2 * Tc or abs(n - 1.0) < 1e-3:     # super-critical: one real root, smooth in P
+                continue
+            Ts.append(T), Ps.append(P), ns.append(n)
+        if len(Ts) < k:
+            continue
+        out.append({'kind': 'array', 'eos': 'vdw', 'src': 'array', 'a': a, 'b': b, 'T': Ts, 'P': Ps, 'n': ns})
+        out.append({'kind': 'array', 'eos': 'ideal', 'src': 'array', 'T': Ts, 'P': Ps, 'n': ns})
+    return out
+
+
 def _sig(x):
     return '%.3e' % x
 
@@ -364,7 +466,8 @@ def run(ctx):
         'objects from from_critical, and every TLC cubic with known roots scaled into the domain; each van der '
         'Waals state is probed for the gas and the liquid root.  Non-trivial: a van der Waals state where the '
         'harness bracketed three distinct real roots (the selection matters), or a gas state satisfying the '
-        'low-density antecedent, or a TLC cubic, or any ideal / critical case; distinct by kind, source, phase '
+        'low-density antecedent, or a TLC cubic, or any ideal / critical / array case (arrays of 2-4 super-critical '
+        'states with n != 1, the same ndarray objects reused across calls); distinct by kind, source, phase '
         'and parameters rounded to 4 digits')
     rnd = random.Random(ctx.seed)
     if ctx.replay_case is not None:
@@ -390,16 +493,18 @@ def run(ctx):
                  + gen_threeroot(rnd, ctx.pick(600, 15000))
                  + gen_nearcrit(rnd, ctx.pick(150, 3000))
                  + gen_fromcrit_states(rnd, ctx.pick(250, 6000))
-                 + gen_crit(rnd, ctx.pick(150, 3000)))
+                 + gen_crit(rnd, ctx.pick(150, 3000))
+                 + gen_array(rnd, ctx.pick(150, 3000)))
     results = core.pmap(execute, cases)
     traces = []
     stats = {'vdw_three_roots': 0, 'vdw_one_root': 0, 'vdw_low_density': 0, 'critical_states': 0,
-             'tlc_replayed': 0}
+             'tlc_replayed': 0, 'array_cases': 0, 'array_refused': 0}
     for tid, (case, (events, detail)) in enumerate(zip(cases, results)):
         ctx.evaluated()
         tags = {'kind': case['kind'], 'src': case.get('src', case['kind']), 'gas': case.get('gas')}
         sig = [case['kind'], case.get('src'), case.get('gas')] + \
-              [_sig(case[k]) for k in ('a', 'b', 'T', 'P', 'n') if k in case] + \
+              [_sig(x) for k in ('a', 'b', 'T', 'P', 'n') if k in case
+               for x in (case[k] if isinstance(case[k], list) else [case[k]])] + \
               [_sig(x) for x in case.get('from_critical', [])]
         if case['kind'] == 'vdw':
             nr = detail.get('nroots', 0)
@@ -417,6 +522,8 @@ def run(ctx):
                 ctx.violation('ReplayState', case, tags=tags, detail=detail)
         else:
             ctx.nontrivial(sig)
+            if case['kind'] == 'array':
+                stats['array_refused' if 'array_refused' in detail else 'array_cases'] += 1
             if detail.get('state'):
                 stats['critical_states'] += 1
         traces.append((tid, events))
@@ -427,7 +534,8 @@ def run(ctx):
     ctx.coverage['trace_lines'] = vstats['lines']
     ctx.coverage.update(stats)
     if ctx.replay_case is None and (stats['vdw_three_roots'] < 100 or stats['vdw_low_density'] < 100
-                                    or stats['tlc_replayed'] < 50 or stats['critical_states'] < 20):
+                                    or stats['tlc_replayed'] < 50 or stats['critical_states'] < 20
+                                    or stats['array_cases'] + stats['array_refused'] < 50):
         raise core.MachineryError('vacuous run: %r' % (stats,))
     for tid, idx, clause in fails:
         case = cases[tid]
@@ -443,6 +551,9 @@ def run(ctx):
                '(spinodal, critical point) are not used')
     ctx.assume('cubic residuals are compared with the largest of the four terms (1e-6): the pressure round trip on '
                'the liquid root at low pressure is ill conditioned and is only required in that sense')
+    ctx.assume('array arguments: the docstrings list every parameter as float; float ndarrays are probed only for the '
+               'getters that evaluate element-wise on the unmodified library (get_Vm / get_V with array T or P raise '
+               'and are not probed); array = map of scalar is read as agreement to 1e-13 relative')
     ctx.assume('the Dec clauses do not see relative deviations below ~1e-6')
 
 
